@@ -308,9 +308,11 @@ func runGenerated(c *vlib.Check, bins map[string]string, vs []vlib.Variant, sche
 					gs.RaceReports++
 					mu.Unlock()
 					key := "gen:data-race"
-					for _, fn := range []string{"graphql.ErrorOnPath", "executableSchema).Exec", "bytes.(*Buffer)", "transport.writeJson", "mergeHeaders", "CollectFields", "transport.POST", "transport.GET", "executor."} {
-						if strings.Contains(blk, fn) {
-							key = "gen:data-race:" + strings.Trim(fn, ".()*")
+					for _, fn := range [][2]string{{"graphql.ErrorOnPath", "graphql.ErrorOnPath"}, {"CollectFields", "CollectFields"}, {"collectFields", "CollectFields"},
+						{"executableSchema).Exec", "generated.Exec"}, {"bytes.(*Buffer)", "bytes.Buffer"}, {"transport.writeJson", "transport.writeJson"},
+						{"mergeHeaders", "mergeHeaders"}, {"transport.POST", "transport.POST"}, {"transport.GET", "transport.GET"}, {"executor.", "executor"}} {
+						if strings.Contains(blk, fn[0]) {
+							key = "gen:data-race:" + fn[1]
 							break
 						}
 					}
